@@ -349,8 +349,10 @@ class Group(HLObject):
             else:
                 if last and not follow_last:
                     return fnode, link, name
-                k = _key(link[1] if os.path.isabs(link[1]) else os.path.join(os.path.dirname(fnode.path), link[1]))
-                if k not in _REG or not os.path.exists(k):
+                # HDF5: an absolute name as it is; a relative one first beside the file that holds the link, then from the working directory
+                cands = [link[1]] if os.path.isabs(link[1]) else [os.path.join(os.path.dirname(fnode.path), link[1]), os.path.abspath(link[1])]
+                k = next((c for c in map(_key, cands) if c in _REG and os.path.exists(c)), None)
+                if k is None:
                     raise KeyError("Unable to synchronously open object (unable to open external file)")
                 tgt = _REG[k]
                 # h5py names an object reached through an external link by its path in the target file
